@@ -189,6 +189,16 @@ def enum_units(tier, seed):
                     nest = [{"k": "block", "b": inner}] if ctx == "block" else [{"k": "block", "b": [{"k": "block", "b": inner}]}] if ctx == "block-block" else [{"k": "scope", "n": "sc_w", "b": inner}]
                     outer = nest + after if later == "reassign" else [{"k": "block", "b": nest + after}]
                     cases.append({"rom": "low", "files": {}, "ir": [{"k": "const", "n": "kx_w", "e": L(v0), "eager": True}, {"k": "org", "a": 0x018000}, mp_] + outer + sp("lb_end")})
+    # a forward reference to `scope.name` in an unsized operand, while the plain `name` is visible as something else of another
+    # width (a constant, a label of another bank): the qualified name is not the plain one
+    for plain in ({"k": "const", "n": "lb_e", "e": L(0x12), "eager": True}, {"k": "const", "n": "lb_e", "e": L(0x123456), "eager": True}, {"k": "label", "n": "lb_e"}):
+        for ins_m, sh in (("lda", ["", None, None]), ("jmp", ["", None, None]), ("sta", ["", None, "x"])):
+            for target_org in (None, 0x028000):
+                ref = {"k": "ins", "m": ins_m, "shape": sh, "sfx": "", "e": ["id", "sc_f.lb_e"]}
+                tail = ([{"k": "org", "a": target_org}] if target_org else []) + [{"k": "scope", "n": "sc_f", "b": [{"k": "data", "d": "db", "es": [L(0x60)]}, {"k": "label", "n": "lb_e"}, {"k": "data", "d": "db", "es": [L(0x61)]}]}]
+                head = [plain] if plain["k"] == "const" else []
+                first = [{"k": "org", "a": 0x008000}] + ([plain, {"k": "data", "d": "db", "es": [L(0xEA)]}] if plain["k"] == "label" else [])
+                cases.append({"rom": "low", "files": {}, "ir": head + first + [ref] + sp("lb_mid") + tail + sp("lb_end")})
     # a qualified name that an outer named scope already exports when it is first evaluated (label pass) and that a nearer
     # scope of the same name (defined later, inside the enclosing block / scope / loop / macro) must win at emission
     def named(body):
